@@ -1061,6 +1061,65 @@ fn main() {
         }
     }
 
+
+    // ---- T2: one SVCB parameter: Display against the model's show_param, and tokens read back
+    //      (". 0 IN SVCB 1 . <token>") against parse_param
+    {
+        let n_svc = (if a.thorough { 8000 } else { 900 }) * a.scale as usize;
+        let mut toks: Vec<Vec<u8>> = [&b"port=80"[..], b"port=", b"port", b"port=65536", b"port=+1", b"port=080", b"PORT=1", b"ohttp", b"ohttp=", b"ohttp=x",
+            b"no-default-alpn", b"nodefaultalpn", b"no-default-alpn=x", b"key123", b"key123=", b"key123=a=b", b"key65536=a", b"key00009=a", b"Key9=1",
+            b"alpn=h2", b"alpn=h2,h3", b"alpn=h2,", b"alpn=,h2", b"alpn=", b"alpn", b"alpn=a\\\\b", b"mandatory=alpn", b"mandatory=port,alpn", b"mandatory=mandatory",
+            b"mandatory=alpn,alpn", b"mandatory=key7", b"mandatory=", b"ipv4hint=1.2.3.4", b"ipv4hint=1.2.3.4,5.6.7.8", b"ipv4hint=1.2.3", b"ipv4hint=01.2.3.4", b"ipv4hint=",
+            b"ipv6hint=::1", b"ipv6hint=::1,2001:db8::", b"ipv6hint=1.2.3.4", b"ech=AAAA", b"ech=AA==", b"ech=A", b"ech=", b"ech=@@@@", b"dohpath=/dns-query{?dns}",
+            b"dohpath=\\195\\169", b"dohpath=\\195", b"dohpath=a\\(b\\)", b"dohpath", b"tls-supported-groups=29,23", b"tls-supported-groups=29,29", b"tls-supported-groups=65536",
+            b"tls-supported-groups=", b"=x", b"a_b=1", b"port=8\\0480", b"key7=/x", b"key2", b"key3=443", b"\"port=80\"", b"unknown=1"].iter().map(|x| x.to_vec()).collect();
+        let mut shows: Vec<(u16, Vec<u8>)> = Vec::new();
+        for _ in 0..n_svc {
+            let key: u16 = match r.below(13) { k @ 0..=9 => k as u16, 10 => 10 + r.below(20) as u16, 11 => 65535 - r.below(3) as u16, _ => r.u16().max(10) };
+            let val: Vec<u8> = match key {
+                0 => { let mut ks: Vec<u16> = (0..1 + r.below(4)).map(|_| 1 + r.below(12) as u16).collect(); ks.sort(); ks.dedup(); ks.iter().flat_map(|k| k.to_be_bytes()).collect() }
+                1 => { let mut m = Vec::new(); for _ in 0..1 + r.below(3) { let n = 1 + r.below(5) as usize; m.push(n as u8); for _ in 0..n { m.push(*r.pick(b"h23abc-./xyz")); } } m }
+                2 | 8 => vec![],
+                3 => ext_u16(&mut r).to_be_bytes().to_vec(),
+                4 => { let n = 4 * (1 + r.below(3) as usize); r.bytes(n) }
+                5 => gen_blob(&mut r, 30),
+                6 => { let mut v = Vec::new(); for _ in 0..1 + r.below(2) { let mut x = r.bytes(16); for g in 0..8 { if r.chance(1, 2) { x[2 * g] = 0; x[2 * g + 1] = 0; } } v.extend(x); } v }
+                7 => { let n = r.below(10) as usize; let mut v = Vec::new(); for _ in 0..n { match r.below(6) { 0 => v.extend("\u{e9}".as_bytes()), 1 => v.push(*r.pick(b" ;()\"\\,=\t\n\x7f")), _ => v.push(*r.pick(b"abc/-{}?dns")) } } v }
+                9 => { let mut ks: Vec<u16> = (0..1 + r.below(4)).map(|_| ext_u16(&mut r)).collect(); ks.dedup(); let mut seen = std::collections::BTreeSet::new(); ks.retain(|k| seen.insert(*k)); ks.iter().flat_map(|k| k.to_be_bytes()).collect() }
+                _ => { let n = r.below(8) as usize; octets(&mut r, n) }
+            };
+            shows.push((key, val));
+        }
+        for (key, val) in shows {
+            let mut rd = vec![0u8, 1, 0]; rd.extend(key.to_be_bytes()); rd.extend((val.len() as u16).to_be_bytes()); rd.extend(&val);
+            let rec = match make_record(&[0], 1, 0, 64, &rd) { Some(x) => x, None => { out.count("unbuildable_svcparam"); continue; } };
+            let text = match write_rec(&rec, 's') { Ok(Ok(t)) => t, _ => continue };
+            let tok = match text.strip_prefix(". 0 IN SVCB 1 . ") { Some(t) => t.as_bytes().to_vec(), None => text.strip_prefix(". 0 IN SVCB 1 .").map(|t| t.as_bytes().to_vec()).unwrap_or_default() };
+            idx += 1;
+            if out.wants(idx) {
+                let c = format!("svcshow {} {}", key, hex(&val));
+                out.begin(&c);
+                out.case(&c, &hex(&tok), true, "svcparam_display");
+            }
+            if !tok.is_empty() { toks.push(tok); }
+        }
+        for tok in toks {
+            idx += 1; if !out.wants(idx) { continue; }
+            let c = format!("svcread {}", hex(&tok));
+            out.begin(&c);
+            let mut line = b". 0 IN SVCB 1 . ".to_vec(); line.extend(&tok); line.push(b'\n');
+            let obs = match read_text(&line, None) {
+                Err(_) => "Panic".to_string(),
+                Ok(Err(_)) => "Err".to_string(),
+                Ok(Ok(v)) if v.len() == 1 => { let w = rdata_wire(v[0].data());
+                    if w.len() >= 7 && w[..3] == [0, 1, 0] { let k = u16::from_be_bytes([w[3], w[4]]); let l = u16::from_be_bytes([w[5], w[6]]) as usize;
+                        if w.len() == 7 + l { format!("Ok {} {}", k, hex(&w[7..])) } else { "Err".to_string() } } else { "Err".to_string() } }
+                Ok(Ok(_)) => "Err".to_string(),
+            };
+            out.case(&c, &obs, true, "svcparam_read");
+        }
+    }
+
     // ---- T2: regular record types field by field (`rec`): the model renders the record with the
     //      schema T1 read off the type's ZonefileFmt / scan impls
     let n_rec = (if a.thorough { 400 } else { 40 }) * a.scale as usize;
